@@ -12,7 +12,7 @@ LEVEL = 'exploration'
 LEVEL_TEXT = ('seeded exploration of payload sequences (bytes/bytearray/str, length 0..4 capacities, all byte values) over 1-3 '
               'NO-FORMAT objects x record lengths x output-chunk schedules; byte-exact decode vs model')
 LEVEL_NOTE = 'trusted: sim/rp66.py; the model is the literal payload list of the scenario; sampling only'
-TIERS = {'quick': {'cases': 4000, 'wall': 40}, 'thorough': {'cases': 400000, 'wall': 780}}
+TIERS = {'quick': {'cases': 3000, 'wall': 40}, 'thorough': {'cases': 400000, 'wall': 780}}
 RULE = ('case = seeded payload sequence interleaved over NO-FORMAT objects, written at a small record length with a seeded '
         'output chunk; non-trivial = some payload larger than one segment capacity and >= 2 flushes; distinct = case digest')
 
@@ -41,7 +41,10 @@ def gen_case(rng, tier, avoid):
             if n + 3 + len(nm) < 12:
                 p = {'$bytes': rng.randbytes(12).hex()}
         spec.emit({'op': 'nf_data', 'lf': lfi['lf'], 'nf': {'$ref': h}, 'data': p})
-    return {'scenario': {'env': {'tz': 'UTC'}, 'history': spec.ops},
+    ops = spec.ops
+    if rng.random() < 0.2:
+        ops = gen.noise_file(rng) + ops
+    return {'scenario': {'env': {'tz': 'UTC'}, 'history': ops},
             'params': {'ocs': gen.pick(rng, C.sym_ocs_choices(rng)[:3] + C.sym_ocs_choices(rng)[7:10])}}
 
 
